@@ -439,6 +439,23 @@ def structural_designs() -> Iterator[Tuple[str, dict]]:
                           _inst("zq", L("E2"), {"x": ["bref", "b2", ["y"]], "y": ["bref", "b2", ["x"]]}, tag=62)])
         yield (f"bundle-multi-port-{variant}", {"bundles": B(), "modules": [copy.deepcopy(cm), top], "top": "T"})
 
+    # --- a port first tied to something, then re-connected (only the last connection is part of the design) --------
+    for n in (2, 3):
+        for first in ("pref-implicit", "pref-explicit", "bundle", "bref"):
+            insts = [_inst(f"r{k}", L("E2"), {"x": S("vss")}, tag=30 + k) for k in range(n + 1)]
+            for k in range(2, n + 1):
+                insts[k]["conns"]["y"] = ["pref", "r0", "y"]      # r2.. follow r0.x (an implicit net)
+            insts[1]["conns"]["y"] = S("b")                        # r1.x ends on b ...
+            if first == "pref-explicit":
+                insts[0]["conns"]["y"] = S("c")
+            pre = {"pref-implicit": ["pref", "r0", "y"], "pref-explicit": ["pref", "r0", "y"], "bundle": ["bref", "bb", ["x"]],
+                   "bref": ["bref", "b3", ["lo", "x"]]}[first]   # ... but was first tied elsewhere
+            top = _mod("T", sigs=[["vss", 2], ["b", 1], ["c", 1], ["w2", 2]], buns=[["bb", "B1"], ["b3", "B3"]],
+                       insts=insts + [_inst("ob", L("E2"), {"y": ["bref", "bb", ["x"]], "x": S("w2")}, tag=40),
+                                      _inst("oc", L("E2"), {"y": ["bref", "b3", ["lo", "x"]], "x": S("w2")}, tag=41)])
+            top["pre_conns"] = [["r1", "y", pre]]
+            yield (f"reconnected-{n}-{first}", {"bundles": B(), "modules": [top], "top": "T"})
+
     # --- arrays -------------------------------------------------------------------------------------
     ch = _mod("Ca", ports=[["a", 2, "in"], ["b", 1, "out"]], bports=[["bp", "B1", False, None]],
               insts=[_inst("e", L("E2"), {"x": S("a"), "y": S("b")}, tag=1),
